@@ -357,6 +357,16 @@ def eval_int_helper(sb_tu, name, bits, convs):
     vals = sorted({0, 1, 9, 10, 15, 16, 255, 256, 0xABCDEF, 0x0FFFFFFF, 0x10000000, 0x7FFFFFFF, 0x80000000, 0xFFFFFFFF, 0x100000000 % (1 << bits),
                    0x7FF8000000000000 % (1 << bits), 0xFFF4000000ABCDEF % (1 << bits), 0x0000000100000000 % (1 << bits),
                    0x1000000000000000 % (1 << bits), top - 1, top, (1 << bits) - 1})
+    if not hexa:
+        # decimal structure: powers of ten and their neighbours, zero digits at every position (a formatter that prints in groups of
+        # digits must zero-pad the inner groups), in both signs
+        dec = set()
+        for k in range(1, 20):
+            for d in (10 ** k, 10 ** k - 1, 10 ** k + 1, 9 * 10 ** k + 12345678 % 10 ** k, 4 * 10 ** k, 10 ** k + 10 ** (k // 2), 7 * 10 ** k + 7):
+                if d < top:
+                    dec.add(d)
+                    dec.add((-d) % (1 << bits))
+        vals = sorted(set(vals) | dec)
     for v in vals:
         got = []
 
@@ -448,7 +458,7 @@ def eval_float_helper(sb_tu, name, W):
 CONV = re.compile(r'%([-+ #0]*)(\d+)?(?:\.(\d+|\*))?(hh|h|ll|l|q|j|z|t|L)?([diouxXeEfFgGcs])$')
 
 
-def check_formats(chk, fmts):
+def check_formats(chk, fmts, sb_tu=None):
     want = {
         'stringBuilderAppendI32': ('int', 32, 'di', ''),
         'stringBuilderAppendI64': ('int', 64, 'di', 'll'),
@@ -458,6 +468,14 @@ def check_formats(chk, fmts):
         'stringBuilderAppendF64': ('float', 17, 'gGeE', ''),
     }
     for name, (cls, n, convs, mod) in want.items():
+        if name not in fmts and cls == 'int' and sb_tu is not None and name in sb_tu.functions and astdb.fn_body(sb_tu.functions[name]) is not None:
+            # no sprintf of its own (it delegates to another helper, or produces the digits itself): decided on the digits it appends
+            bad = eval_int_helper(sb_tu, name, n, convs)
+            chk.expect(not bad, 'R07.4', name + ':digits', '%s (no format of its own) %s' % (name, bad), name + ':digits',
+                       detail_ok='boundary values are appended as digits that denote the same %d-bit pattern' % n)
+            if 'x' in convs.lower():
+                chk.expect(True, 'R07.2', name, '', name + ':digits')
+            continue
         chk.require(name in fmts, 'anchor %s (with a sprintf) not found in stringbuilder.c' % name)
         e = fmts[name]
         m = CONV.match(e['fmt'] or '')
@@ -812,7 +830,7 @@ def run(chk):
     for tname in ('f32', 'f64'):
         cells += check_float_case(chk, it, tname, vts[tname], sb_tu) or 0
     check_int_cases(chk, it, vts)
-    check_formats(chk, sprintf_formats(chk, sb_tu))
+    check_formats(chk, sprintf_formats(chk, sb_tu), sb_tu)
     check_decoding(chk, tus, it, vts)
     check_positions(chk, tus, it, vts)
     # the integer immediates of i32.const / i64.const are signed LEB128 numbers: the decoders must reproduce every bit
